@@ -442,6 +442,31 @@ theorem c16_table_wire_unchecked : Gen.WiringFlow.wireUnchecked = tab (wireProbe
     value makes `execute` raise a WiringError before any handler is invoked, as in the model -/
 theorem c16_table_wire_and_external : Gen.WiringFlow.wireAndExternal = tab wireAndExternalProbe := by decide +kernel
 
+/-- the diagram of one `schedule` row: three modules with one input and one output port each, declared in the order
+    `perm`, wired as `src` says; every module has a handler; unfed ports get an external value -/
+private def schedProbe (perm : List Nat) (src : List (Option Nat)) : Bool × List Nat :=
+  let p : PortType := ⟨0, 0⟩
+  let fed : List (Nat × Option Nat) := (List.range src.length).zip src
+  let d : Diagram :=
+    { modules := perm.map fun m => ⟨m, [(0, p)], [(0, p)], []⟩,
+      wires := fed.filterMap fun (b, s) => s.map fun a => ⟨a, 0, b, 0⟩ }
+  let ext : List (Nat × List (Nat × Val)) := fed.filterMap fun (b, s) => if s.isNone then some (b, [(0, .raw 5)]) else none
+  let r := execute d (fun m => some (fun _ => .ret [(0, .raw m)])) ext true
+  match r.out with
+  | .ok recs => (true, recs.map (·.name))
+  | .error _ => (false, r.calls.map (·.name))
+
+/-- the real scheduler, run by E6 on all 6 declaration orders × 4³ ways of feeding three modules (cycles, self loops,
+    chains, fan-out, external values), does what the model does: the same runs succeed, in the same execution order,
+    and a raising run has invoked the same handlers in the same order -/
+theorem c16_table_schedule :
+    Gen.WiringFlow.schedule.all (fun row =>
+      row.known && (schedProbe row.perm row.src == (row.ok, row.log))) = true ∧
+    Gen.WiringFlow.schedule.length = 384 := by
+  constructor
+  · decide +kernel
+  · decide +kernel
+
 theorem c16_table_coerce_output_raw :
     Gen.WiringFlow.coerceOutputRaw = rawTab (fun t => ofCoerce (Wiring.coerceOutput (.raw 13) t)) := by
   decide +kernel
